@@ -90,7 +90,7 @@ def classify(h, spec, out, rc):
                 res["failures"].append(dict(obligation=oid, desc=d, loc=c["loc"], kind="obligation"))
             continue
         if c["status"] == "FAILURE":
-            if expected_fail and expected_fail in d:
+            if expected_fail and (expected_fail in d or expected_fail in c["name"]):
                 res.setdefault("expected_failures", []).append(d)
                 continue
             if MEMSAFETY.search(d) or "pointer_dereference" in c["name"]:
@@ -210,7 +210,7 @@ def run_kani_jobs(ctx, harnesses):
         vdir = os.path.join(ctx.work, variant)
         os.makedirs(vdir, exist_ok=True)
         vs = registry.VARIANTS[variant]
-        mods = sorted({s["module"] for s in hs.values() if s.get("module")})
+        mods = sorted({s["module"] for s in hs.values() if s.get("module")} | {m for s in hs.values() for m in s.get("extra_modules", [])})
         mods = sorted(set(mods) | set(vs.get("modules", [])))
         # modules that other modules depend on
         extra = {}
